@@ -152,6 +152,9 @@ class C11(PropBase):
         # a class with the same bare name in both modules (different fields)
         world["modules"][0]["decls"].append({"d": "dataclass", "n": "VwSame", "fields": [{"n": "a", "t": {"k": "int"}}], "flags": {}})
         world["modules"][1]["decls"].append({"d": "dataclass", "n": "VwSame", "fields": [{"n": "a", "t": {"k": "str"}}, {"n": "b", "t": {"k": "int"}, "default": 0}], "flags": {}})
+        # ... and one whose name is also a builtin's: the caller's module binding shadows it, as in Python
+        world["modules"][0]["decls"].append({"d": "dataclass", "n": "Warning", "fields": [{"n": "a", "t": {"k": "int"}}], "flags": {}})
+        world["modules"][1]["decls"].append({"d": "dataclass", "n": "Warning", "fields": [{"n": "a", "t": {"k": "str"}}, {"n": "b", "t": {"k": "int"}, "default": 0}], "flags": {}})
         # a relay module that binds none of the names: references issued "through" it must still be
         # resolved against the module further up the stack that does
         world["modules"].append({"name": "vwr", "future": False, "decls": []})
@@ -198,7 +201,7 @@ class C11(PropBase):
                 # bare reference to the twice-defined name
                 mod = rng.choice(mods)
                 x = {"$dict": [["a", 5]]} if rng.random() < 0.7 else {"$dict": [["a", "q"], ["b", 2]]}
-                step = {"op": "bare", "name": "VwSame", "mod": mod, "x": x, "dir": rng.choice(["unmarshal", "unmarshal", "build", "graph"])}
+                step = {"op": "bare", "name": rng.choice(["VwSame", "VwSame", "Warning"]), "mod": mod, "x": x, "dir": rng.choice(["unmarshal", "unmarshal", "build", "graph"])}
                 if "stack" in sw and rng.random() < 0.4:
                     step["depth"] = rng.randint(1, 40)
                 if rng.random() < 0.4:
